@@ -67,7 +67,7 @@ fn reference(conv: &Beatmap, mode: GameMode, spec: &SetSpec, n: Option<u32>) -> 
         }
         GameMode::Mania => {
             let e = &spec.mods.extra;
-            let lazer = spec.mods.repr == sets::Repr::Lazer;
+            let lazer = spec.mods.is_lazer_like();
             if lazer && e.invert {
                 // only the generic clauses
             } else if lazer && e.ho {
@@ -123,9 +123,20 @@ pub fn case(ctx: &mut Ctx, idx: u64) {
             if rng.chance(0.4) {
                 spec.mods.extra.random = Some(Some(rng.range(0, 9999) as f64));
             }
+            if rng.chance(0.2) && spec.mods.bits & sets::KEY_BITS_MASK == 0 {
+                spec.mods.extra.ten_keys = true;
+            }
+            // HoldOff / Invert / 10K have no legacy bit: hand them over as GameModsIntermode (owned or borrowed) as well
+            let e = &spec.mods.extra;
+            if e.random.is_none() && e.da.is_none() && e.speed_change.is_none() && e.cl.is_none_or(|c| c.is_none()) && e.mirror.is_none() {
+                spec.mods.repr = *rng.pick(&[sets::Repr::Lazer, sets::Repr::LazerAsIntermode, sets::Repr::LazerAsIntermodeRef]);
+            }
         } else {
             spec.mods.extra.mirror = Some(rng.pick(&[None, Some("1".to_string()), Some("2".to_string())]).clone());
         }
+    }
+    if spec.mods.is_lazer_like() && spec.mods.repr != sets::Repr::Lazer {
+        ctx.count("mods:lazer-set-as-intermode");
     }
     let text = mc.text.as_str();
     let gm = spec.mods.to_gamemods(mode);
